@@ -255,6 +255,8 @@ def consumers(idx: SourceIndex, kinds: Kinds, prefixes: tuple[str, ...]) -> list
                         out.append(Consumer(f, n.args[0], f"{cn}()", n, True, "materialises hash order"))
                 if cn == "join" and n.args and is_set(n.args[0]):
                     out.append(Consumer(f, n.args[0], "join", n, True, "string built in hash order"))
+                if isinstance(n.func, ast.Attribute) and n.func.attr in ("extend", "extendleft") and len(n.args) == 1 and is_set(n.args[0]):
+                    out.append(Consumer(f, n.args[0], f"{n.func.attr}()", n, True, "sequence extended in hash order"))
                 if cn in ORDER_FREE_CALLS and n.args and is_set(n.args[0]):
                     out.append(Consumer(f, n.args[0], f"{cn}()", n, False, "order-independent reduction"))
             if isinstance(n, ast.Starred) and is_set(n.value):
@@ -263,4 +265,7 @@ def consumers(idx: SourceIndex, kinds: Kinds, prefixes: tuple[str, ...]) -> list
                 out.append(Consumer(f, n.value, "splat", n, not ok, "unpacked in hash order" if not ok else "splatted into an order-free call"))
             if isinstance(n, ast.Assign) and isinstance(n.targets[0], (ast.Tuple, ast.List)) and is_set(n.value):
                 out.append(Consumer(f, n.value, "unpack", n, True, "destructured in hash order"))
+            # `seq += <set>`: sets have no `+`, so the target is a list/deque that is extended in hash order
+            if isinstance(n, ast.AugAssign) and isinstance(n.op, ast.Add) and is_set(n.value):
+                out.append(Consumer(f, n.value, "+=", n, True, "sequence extended in hash order"))
     return out
